@@ -1,0 +1,60 @@
+//go:build verif
+
+// Contracts for the acv verifier (/verif). Comment-only file: no executable code.
+
+package signature
+
+//@ func NewNotary(algorithms []Algorithm) (n *Notary, err error)
+//@   props C08 C18
+//@   safety
+//@   ensures (err == nil) <==> (n != nil)
+//@   ensures needs-an-algorithm: len(algorithms) < 1 ==> err == ErrNoAlgorithms
+//@   ensures err == nil ==> sameslice(n.algorithms, algorithms) && fresh(n)
+
+// The signatures cover exactly the marshalled payload, under the caller's context, and the result is the container
+// marshalled after the signatures were installed.
+//@ func (s *Notary) Sign(container *asn1.SignedContainer, context []byte) (out []byte, err error)
+//@   props C08 C18
+//@   safety
+//@   noinline signData
+//@   ensures err == nil ==> sameslice(out, ret(SignedContainer.Marshal)[0]) && called(Notary.signData)
+//@   ensures err != nil ==> out == nil
+//@   at call Notary.signData : assert sameslice(arg[0], ret(SignedPayload.Marshal)[0]) && ret(SignedPayload.Marshal)[1] == nil && sameslice(arg[1], context)
+//@   at call SignedContainer.Marshal : assert recv == container && called(Notary.signData) && sameslice(container.Signatures, ret(Notary.signData)[0])
+
+//@ func (s *Notary) signData(data []byte, context []byte) (sigs []asn1.Signature)
+//@   props C08 C18
+//@   safety
+//@   ensures one-per-algorithm: len(sigs) == len(s.algorithms)
+//@   loop 0 step signed-by-own-algorithm: itercalled(Algorithm.Sign) && sameslice(argof(Algorithm.Sign)[0], data) && sameslice(argof(Algorithm.Sign)[1], context) && sameslice(signatures[i].Signature, ret(Algorithm.Sign)[0])
+
+// A container is returned only if its signatures verify over the raw payload bytes that were received, in the
+// caller's context.
+//@ func (s *Notary) Verify(data []byte, context []byte) (c *asn1.VerifiedContainer, err error)
+//@   props C08 C18
+//@   safety
+//@   noinline verifySignatures
+//@   ensures (err == nil) <==> (c != nil)
+//@   ensures verified-before-returned: err == nil ==> called(Notary.verifySignatures) && ret(Notary.verifySignatures)[0] == nil && c == ret(asn1.UnmarshalVerifiedContainer)[0]
+//@   at call asn1.UnmarshalVerifiedContainer : assert sameslice(arg[0], data)
+//@   at call Notary.verifySignatures : assert sameslice(arg[0], ret(asn1.UnmarshalVerifiedContainer)[0].Signatures) && sameslice(arg[1], ret(asn1.UnmarshalVerifiedContainer)[0].Payload.RawContent) && sameslice(arg[2], context)
+
+// All signatures of known algorithms must verify and there must be at least one.
+//@ func (s *Notary) verifySignatures(signatures []asn1.Signature, data []byte, context []byte) (err error)
+//@   props C08 C18
+//@   safety
+//@   noinline algorithmWithOID
+//@   loop 0 invariant noSignaturesVerified <==> !called(Algorithm.Verify)
+//@          invariant called(Algorithm.Verify) ==> ret(Algorithm.Verify)[0]
+//@          step mismatch-stops: itercalled(Algorithm.Verify) ==> ret(Algorithm.Verify)[0]
+//@          step over-the-given-bytes: itercalled(Algorithm.Verify) ==> sameslice(argof(Algorithm.Verify)[0], signature.Signature) && sameslice(argof(Algorithm.Verify)[1], data) && sameslice(argof(Algorithm.Verify)[2], context)
+//@          step known-algorithm-not-skipped: ret(Notary.algorithmWithOID)[0] != nil ==> itercalled(Algorithm.Verify)
+//@   ensures at-least-one-verified: err == nil ==> called(Algorithm.Verify) && ret(Algorithm.Verify)[0]
+//@   ensures none-known-rejected: !called(Algorithm.Verify) ==> err == ErrNoSignature
+//@   at call Algorithm.Verify : assert recv == ret(Notary.algorithmWithOID)[0]
+//@   at call Notary.algorithmWithOID : assert arg[0] == signature.Algorithm
+
+//@ func (s *Notary) algorithmWithOID(oid encodingASN1.ObjectIdentifier) (a Algorithm)
+//@   props C08 C18
+//@   safety
+//@   ensures from-own-list: a != nil ==> exists(i, 0, len(s.algorithms), s.algorithms[i] == a)
